@@ -15,7 +15,8 @@
                     State item is tolerated: some accessories omit it)
      -> CheckError  an Error item ends the step with the exception class documented for its code,
                     *whether or not a State item was present*
-     -> CheckFields the step's own required fields
+     -> CheckFields the step's own required fields (for a resume answer: Method, SessionID and a valid tag end
+                    the exchange with keys; if one is missing the reply is treated as a full M2, which it is not)
 
    The property is the relation Allowed(step, reply): the set of outcome classes the statement of
    C04 permits for a reply.  ErrorNeverSuccess / WrongStateNeverSuccess say that the algorithm
@@ -32,7 +33,10 @@ CONSTANTS StateVals,    \* State item values explored (ABSENT included)
 ABSENT == 256
 EMPTY  == 257
 
-ProtoSteps == {"PS_M2", "PS_M4", "PS_M6", "PV_M2", "PV_M4"}
+\* PV_M2R: pair-verify M2 when the controller holds a previous session (BLE) and asked to resume it: the reply
+\* is a resume answer (Method=Resume, new SessionID, auth tag in the EncryptedData item) that ends the exchange
+\* with keys - unless it carries an error or a wrong step number, which must be looked at first
+ProtoSteps == {"PS_M2", "PS_M4", "PS_M6", "PV_M2", "PV_M2R", "PV_M4"}
 IpMgmt     == {"IP_Add", "IP_Remove"}
 BleMgmt    == {"BLE_Add", "BLE_Remove"}
 MgmtSteps  == IpMgmt \cup BleMgmt
@@ -45,15 +49,17 @@ Needed(s) == CASE s = "PS_M2" -> {"pk", "salt"}
                [] s = "PS_M4" -> {"proof"}
                [] s = "PS_M6" -> {"enc"}
                [] s = "PV_M2" -> {"pk", "enc"}
+               [] s = "PV_M2R" -> {"method", "sid", "tag"}
                [] OTHER       -> {}
 Optional(s) == IF s = "PS_M4" THEN {"enc"} ELSE {}
 Fields(s)   == Needed(s) \cup Optional(s)
-FieldOrder  == <<"pk", "salt", "proof", "enc">>
+FieldOrder  == <<"method", "sid", "pk", "salt", "proof", "enc", "tag">>
 
 \* the types the generator announces for the reply (step?_expectations in the code)
 ExpectedTypes(s) == {"state", "error", "retry"} \cup Fields(s)
 
-Transports(s) == IF s \in ProtoSteps THEN {"gen", "ip", "coap", "ble"}
+Transports(s) == IF s = "PV_M2R" THEN {"gen", "ble"}          \* only the BLE transport resumes sessions
+                 ELSE IF s \in ProtoSteps THEN {"gen", "ip", "coap", "ble"}
                  ELSE IF s \in IpMgmt THEN {"ip"} ELSE {"ble"}
 \* post_tlv / CoAP decode with the expected list only for the pairing state machines
 Filters(s, t) == s \in ProtoSteps /\ t \in {"ip", "coap"}
